@@ -195,4 +195,13 @@ impl TopicAliasSend {
     pub fn max(&self) -> TopicAliasType {
         self.max_alias
     }
+
+    /// Verification hook: `(alias, topic)` pairs in least-recently-used-first order.
+    #[cfg(mqtt_protocol_core_verif)]
+    pub fn verif_dump(&self) -> Vec<(TopicAliasType, String)> {
+        self.alias_to_topic
+            .iter()
+            .map(|(a, t)| (*a, t.clone()))
+            .collect()
+    }
 }
